@@ -326,6 +326,11 @@ def check_opm(ctx, hyruns, case):
         # ---- build
         try:
             opm = hyruns.OptionManager("mgr", **context)
+            if case["ctx"] == 1:
+                # history: under the flat context the manager object held another product (other option
+                # names) before; the product that is judged is built on the same object afterwards
+                opm.from_cartesian_product(zz_warmup=[1, 2, 3], zz_other=["q", "r"])
+                ctx.count("opm.rebuilt_on_used_manager")
             opm.from_cartesian_product(**{o[0]: o[1] for o in opts})
             ntasks = opm.ntasks
             tasks = [opm.get_task(t) for t in range(ntasks)]
